@@ -82,6 +82,14 @@ def replay_call(path, fname, call_src):
     except Exception as e:  # noqa: BLE001
         return {"what": f"could not parse counterexample call {call_src}: {e}", "unparsed": True}
     args = dict(cap["b"].arguments)
+    custom = getattr(mod, "replay_" + fname, None)
+    if custom is not None:
+        # harness-provided concrete replay (e.g. materialises the grid and inspects the array)
+        rep = custom(**args)
+        if rep is not None:
+            rep = dict(rep)
+            rep["call"] = call_src
+        return rep
     for p in pres:
         try:
             if not eval(p, ns, dict(args)):
